@@ -161,6 +161,15 @@ def _work_inner(job):
         todo += [(nm, pr) for nm, pr in mod.PROCS.items()]
         gen_names = set(mod.PROCS)
         out["gen_rejected"] = len(mod.REJ)
+    if job.get("tight"):
+        from .tight import mem_family
+        from .mutate_src import build_module
+
+        lo, hi = job["tight"]
+        mod = build_module(f"c02tight{lo}", mem_family()[lo:hi])
+        todo += [(nm, pr) for nm, pr in mod.PROCS.items()]
+        gen_names |= set(mod.PROCS)
+        out["tight_rejected"] = dict(mod.REJ)
     for name, p in todo:
         if p.is_instr():
             continue
@@ -214,6 +223,10 @@ def run(prop, tier):
     n_gen_jobs, per_job = (8, 10) if tier == "quick" else (40, 25)
     base = (vseed % 5) * 100 if tier == "quick" else 0
     jobs += [dict(seeds=[], bounds=bounds, rngseed=vseed, tier=tier, gen=(base + g, per_job)) for g in range(n_gen_jobs)]
+    from .tight import mem_family
+
+    n_t = len(mem_family())
+    jobs += [dict(seeds=[], bounds=bounds, rngseed=vseed, tier=tier, tight=(lo, min(n_t, lo + 4))) for lo in range(0, n_t, 4)]
     with mp.get_context("fork").Pool(ncpu(), maxtasksperchild=2) as pool:
         outs = pool.map(_work, jobs, chunksize=1)
     rep = Reporter(prop)
